@@ -29,7 +29,8 @@ LinkClauses(m, L) ==
      <<"group.database", AllTrue(L.gdb)>>, <<"group.note.parent", AllTrue(L.gnote)>>,
      <<"ref.database", AllTrue(L.rdb)>>, <<"sticky.database", AllTrue(L.ndb)>>,
      <<"project.database", L.pdb>>, <<"project.note.parent", L.pnote>>,
-     <<"iteration", L.iter = Iota(Len(m.tables))>>, <<"db[i]", L.pos = Iota(Len(m.tables))>>,
+     <<"iteration", L.iter = Iota(Len(m.tables))>>, <<"iter(enum) / enum[i]", AllTrue(L.eiter)>>,
+     <<"iter(group) / group[i]", AllTrue(L.giter)>>, <<"iter(table)", AllTrue(L.titer)>>, <<"db[i]", L.pos = Iota(Len(m.tables))>>,
      <<"db[full_name]", L.full = Iota(Len(m.tables))>>,
      <<"db[alias]", L.alias = [i \in DOMAIN m.tables |-> IF m.tables[i].alias = "" THEN 0 ELSE i]>>,
      <<"table.get_refs", L.getrefs = [t \in DOMAIN m.tables |-> GetRefs(m, t)]>>,
